@@ -10,8 +10,10 @@ MSG_CELLS = ["from_bytes_ok", "status_byte", "data_byte_1", "data_byte_2", "to_b
              "is_note_off", "type.super_type", "type.super_type.main_category",
              "to_structured.variant", "to_structured.f1", "to_structured.f2", "to_structured.f3",
              "to_other<Raw>.0", "to_other<Raw>.1", "to_other<Raw>.2",
-             "to_other<Structured>.variant", "to_other<Structured>.f1", "to_other<Structured>.f2", "to_other<Structured>.f3"]
-C01_CELLS = set(range(0, 7)) | set(range(23, 34))
+             "to_other<Structured>.variant", "to_other<Structured>.f1", "to_other<Structured>.f2", "to_other<Structured>.f3",
+             "Raw::from_other.0", "Raw::from_other.1", "Raw::from_other.2", "Foreign::from_other.0", "Foreign::from_other.1", "Foreign::from_other.2",
+             "Structured::from_other.variant", "Structured::from_other.f1", "Structured::from_other.f2", "Structured::from_other.f3"]
+C01_CELLS = set(range(0, 7)) | set(range(23, 44))
 C02_CELLS = set(range(7, 27))
 IMPLS = ["raw", "str", "frn", "ftb"]
 
@@ -187,6 +189,21 @@ def msg_exhaustive(chk, relevant, mask="all", cross_impl=False, spec_relevant=No
                         q = req.split()
                         rows[(int(q[3]), int(q[4]))] = cells.split()
                 per_impl[impl] = rows
+        if cross_impl:
+            # conversions commute with the accessors: within one row, Raw::from_other / Foreign::from_other / to_other<Raw> all
+            # carry the message's own bytes, and Structured::from_other = to_other<Structured> = to_structured
+            for impl, rows in per_impl.items():
+                for key, cells in rows.items():
+                    if len(cells) < 44:
+                        continue
+                    groups = [([cells[4:7], cells[27:30], cells[34:37], cells[37:40]], "to_bytes / to_other<Raw> / Raw::from_other / Foreign::from_other"),
+                              ([cells[23:27], cells[30:34], cells[40:44]], "to_structured / to_other<Structured> / Structured::from_other")]
+                    for vals, what in groups:
+                        if any(v != vals[0] for v in vals[1:]):
+                            found["cross"] += 1
+                            if found["cross"] <= 5:
+                                chk.add_witness("spec", "msg %s %d %d %d" % (impl, s, key[0], key[1]),
+                                                "conversions of the same message disagree (%s): %s" % (what, vals))
         if cross_impl and len(per_impl) == 4:
             base = per_impl["raw"]
             for impl in ("str", "frn", "ftb"):
@@ -196,7 +213,7 @@ def msg_exhaustive(chk, relevant, mask="all", cross_impl=False, spec_relevant=No
                         continue
                     d = diff_cells(ref, cells)
                     if impl == "str":
-                        d -= {1, 2, 3, 4, 5, 6, 27, 28, 29}   # data bytes may differ by canonicalisation (checked against canon by SPEC)
+                        d -= {1, 2, 3, 4, 5, 6, 27, 28, 29, 34, 35, 36, 37, 38, 39}   # data bytes may differ by canonicalisation (checked against canon by SPEC)
                     if d:
                         found["cross"] += 1
                         if found["cross"] <= 5:
@@ -226,8 +243,8 @@ def c03(chk):
     # a deviation from the MIDI table that all implementations share is not a C03 violation (it is C01/C02's);
     # the oracle here is (a) pairwise agreement of the four implementations on the same bytes and (b) the one
     # permitted difference: StructuredShortMessage's own data bytes are the canonical ones
-    canon_cells = {1, 2, 3, 4, 5, 6, 27, 28, 29}
-    msg_exhaustive(chk, set(range(0, 34)), mask="all", cross_impl=True,
+    canon_cells = {1, 2, 3, 4, 5, 6, 27, 28, 29, 34, 35, 36, 37, 38, 39}
+    msg_exhaustive(chk, set(range(0, 44)), mask="all", cross_impl=True,
                    spec_relevant=lambda impl: canon_cells if impl == "str" else set())
 
 
@@ -302,7 +319,8 @@ def lines_run(chk, exe, gen_args, name, relevant=None, stateful=False):
         chk.cov["transitions"] += rep["stats"].get("transitions", 0)
     st = rep["stats"]
     chk.cov["evaluations"] += st.get("evaluations", rep["summary"]["lines"])
-    chk.cov["distinct_nontrivial"] += st.get("nontrivial", 0)
+    # distinct AND non-trivial, measured: distinct (request, result) lines whose result is neither empty nor the bare marker
+    chk.cov["distinct_nontrivial"] += min(st.get("distinct_nontrivial_lines", 0), st.get("evaluations", rep["summary"]["lines"]))
     chk.cov["traces_validated_against_impl"] += rep["summary"]["lines"]
     report_lines(chk, rep, relevant, name, transcript=tr if stateful else None)
     return rep
@@ -396,6 +414,7 @@ EXPLORE_RULE = ("product exploration: breadth-first over REAL scanner states (ke
 def c07(chk):
     chk.extract(())
     chk.proofs(["Midi.Props.C07"])
+    chk.translated(['TMsg', 'TCC'])
     exe = chk.cargo_build("std")
     if exe is None:
         return
@@ -411,6 +430,7 @@ def c07(chk):
 def c08(chk):
     chk.extract(())
     chk.proofs(["Midi.Props.C08"])
+    chk.translated(['TCC'])
     exe = chk.cargo_build("std")
     if exe is None:
         return
@@ -422,6 +442,7 @@ def c08(chk):
 def c09(chk):
     chk.extract(("controllerNumbers",))
     chk.proofs(["Midi.Props.C09"])
+    chk.translated(['TMsg'])
     exe = chk.cargo_build("std")
     if exe is None:
         return
@@ -436,6 +457,7 @@ def c09(chk):
 def c10(chk):
     chk.extract(())
     chk.proofs(["Midi.Props.C10", "Midi.Props.C09"])
+    chk.translated(['TPN', 'TMsg'])
     exe = chk.cargo_build("std")
     if exe is None:
         return
@@ -450,6 +472,7 @@ def c10(chk):
 def c11(chk):
     chk.extract(())
     chk.proofs(["Midi.Props.C11"])
+    chk.translated(['TPN'])
     exe = chk.cargo_build("std")
     if exe is None:
         return
@@ -480,6 +503,7 @@ def polling_runs(chk, exe, random=True, strict=False):
 def c12(chk):
     chk.extract(())
     chk.proofs(["Midi.Props.C12"])
+    chk.translated(['TPoll'])
     exe = chk.cargo_build("std")
     if exe is None:
         return
@@ -497,6 +521,7 @@ def c12(chk):
 def c13(chk):
     chk.extract(())
     chk.proofs(["Midi.Props.C13"])
+    chk.translated(['TPoll'])
     exe = chk.cargo_build("std")
     if exe is None:
         return
@@ -512,6 +537,7 @@ def c13(chk):
 def c14(chk):
     chk.extract(())
     chk.proofs(["Midi.Props.C14"])
+    chk.translated(['TPoll'])
     exe = chk.cargo_build("std")
     if exe is None:
         return
@@ -523,6 +549,7 @@ def c14(chk):
 def c15(chk):
     chk.extract(())
     chk.proofs(["Midi.Props.C15"])
+    chk.translated(['TCC', 'TPN', 'TPoll'])
     exe = chk.cargo_build("std")
     if exe is None:
         return
@@ -538,6 +565,7 @@ def c15(chk):
 def c16(chk):
     chk.extract(("controllerNumbers",))
     chk.proofs(["Midi.Props.C16"])
+    chk.translated(['TCC', 'TPN', 'TPoll'])
     exe = chk.cargo_build("std")
     if exe is None:
         return
@@ -555,6 +583,7 @@ def c16(chk):
 def c17(chk):
     chk.extract(())
     chk.proofs(["Midi.Props.C17"])
+    chk.translated(['TCC', 'TPN', 'TPoll'])
     exe = chk.cargo_build("std")
     if exe is None:
         return
